@@ -11,10 +11,19 @@ DEDUCTIVE = [{"module": "rnapolis.common", "sidecar": "contracts.common_elems_c"
              {"module": "rnapolis.common", "sidecar": "contracts.common_elems_c",
               "opts": {"z3_probe_ms": 800},  # stage order: short z3 attempt, cvc5, then the usual z3 stages
               "targets": ["BpSeq.from_dotbracket", "DotBracket.without_pseudoknots", "BpSeq.without_pseudoknots",
-                          "BpSeq.without_isolated"]}]
+                          "BpSeq.without_isolated"]},
+             # lemma L-hist, SMT version (spec level, no code; induction by `decreases`): contracts/history_c.py.  The more general
+             # Lean version (relational steps and postconditions, heaps with fields) is checked by deductive_extra below
+             {"module": "rnapolis.common", "sidecar": "contracts.history_c",
+              "targets": ["lemma:hist_view_stable", "lemma:hist_answers", "lemma:hist_as_fresh_copy", "lemma:hist_cached"]}]
 TRUSTED = ["z3 5.1.0 / cvc5 1.0.3", "pyvc encoding of Python semantics (DESIGN 2.3)", "CPython 3.12",
            "external re.sub (contracts.common_elems_c._re_sub_brackets): for the one call of DotBracket.without_pseudoknots, a "
-           "character class replaced by '.' is the character-wise map c -> '.' if c in []{}<>A-Za-z else c"]
+           "character class replaced by '.' is the character-wise map c -> '.' if c in []{}<>A-Za-z else c",
+           "Lean 4.33.0 (kernel) as installed under /opt/veriftools (lean/History.lean: core Lean only, no Mathlib import; run "
+           "offline as plain `lean`); the theorems depend on the standard axioms propext, Classical.choice, Quot.sound only "
+           "(checked from the `#print axioms` output)",
+           "the reading of lean/History.lean (abstract states / views / steps) as a statement about the engine's heaps and the "
+           "verified contracts: dictionary in lean/README.md section 'History.lean', by inspection (see ASSUMPTIONS, L-hist)"]
 ASSUMPTIONS = [
     "assumed callee contract BpSeq.dot_bracket (MILP encoder, subject of C02/C13; never a verify target here): returns without "
     "raising - on every access the same object, ghost slot self.dot_bracket_ (cached_property) - the text __make_dot_bracket "
@@ -30,8 +39,25 @@ ASSUMPTIONS = [
     "references held in lists)",
     "dataclass __post_init__ of Stem / SingleStrand / Hairpin / Loop (self.description = str(self)) is not modelled: it writes "
     "only the undeclared field `description` of the object under construction",
-    "L-hist (lemma over the contracts, by induction on the call sequence, not an SMT obligation): see EXPLANATION",
+    "L-hist, the composition of the per-method contracts over an arbitrary finite history of calls: the INDUCTION is machine-"
+    "checked twice (lean/History.lean, theorems L_hist / history_relational / heap_history, target lean:History of "
+    "deductive_extra; contracts/history_c.py, SMT lemmas hist_view_stable / hist_answers / hist_as_fresh_copy / hist_cached). "
+    "What remains a READING (not machine-checked): (a) that the engine's heap and contracts instantiate the abstract system - "
+    "states = heaps, view(b) = b.pairs, the (index_, sequence, pair) of b.entries in order and the contents of the ghost slots "
+    "dot_bracket_ / stems_; Step(op, r, s, v, s') = 'the contract of op holds between s and s' with observed answer v' - and "
+    "that a contract with modifies = [] whose body has no store and whose callees all have modifies = [] is hypothesis (i) "
+    "(for bodies with stores the engine's frame.* obligations are hypothesis hstep of heap_history: every field of every "
+    "allocated reference unchanged); (b) hypothesis (ii) method by method, see the table in EXPLANATION: a FUNCTIONAL "
+    "postcondition over the receiver's view is provided by the verified contracts for pairs, sequence and without_pseudoknots "
+    "(the latter over the view INCLUDING the dot_bracket_ slot) only; for fcfs and without_isolated it is functional only "
+    "together with 'the maximal-run decomposition S of a valid structure is unique' (true, not machine-checked; FC itself is "
+    "unique: lean/Definitional.lean); for dot_bracket, all_dot_brackets and elements the contracts are relational (SOME proper "
+    "assignment / membership clauses / stems component only) and __str__ has no contract - for those the machine-checked "
+    "conclusion is the relational one (no answer is stale: it satisfies the postcondition over the construction-time view) and "
+    "'equal to the answer of a fresh copy' stays with the bounded oracle; (c) cached_property is modelled by ghost slots that "
+    "exist from construction on and are never written; the real write of the instance __dict__ on first access is outside the model",
 ]
+EXTRA_KIND = "Lean 4 lemma L-hist (lean/History.lean, core Lean only, ~1 s; checked in both tiers)"
 EXPLANATION = (
     "Functions under contract (sidecar contracts/common_elems_c.py, reusing the proved contracts of contracts/common_c.py): "
     "BpSeq.__post_init__ (on valid entries: self.pairs[i] == j iff entry i is paired with j, both directions; variant @any: "
@@ -48,20 +74,173 @@ EXPLANATION = (
     "construction), so the engine emits frame.Cls.f obligations over ALL references allocated at entry for every field the "
     "body writes (Entry.index_/sequence/pair, BpSeq.entries/pairs, DotBracket.*); loops that write carry the invariant "
     "'only-fresh-entries-written' (forall e allocated at entry: e.pair == old(e.pair)). Restoring `entries = "
-    "self.entries.copy()` in without_isolated fails loop1.inv0[only-fresh-entries-written].preserve and frame.Entry.pair. "
+    "self.entries.copy()` in without_isolated is reported at ghost.assert[copies-are-fresh-objects] (all_fresh(entries): the fact "
+    "from which loop1.inv0[only-fresh-entries-written] and frame.Entry.pair are discharged); a store to the receiver inside a "
+    "query (self.entries = self.entries[1:] in without_pseudoknots) fails frame.BpSeq.entries. "
     "Queries whose bodies contain no store at all (__str__, sequence, paired, __eq__) have nothing to frame: the engine finds "
     "the heap terms at exit identical to those at entry (no obligation); __str__'s text is a function of the entries' "
     "(index_, sequence, pair) only (one join/format expression over reads; string building over a symbolic list is outside "
     "the engine, so the text itself is not specified). "
-    "L-hist: let view(b) = [(e.index_, e.sequence, e.pair) for e in b.entries]. (1) every public method has modifies = fresh "
-    "only (proved above; for dot_bracket/fcfs/all_dot_brackets/elements: contracts of C01/C02/C16/C07, modifies = []), hence "
-    "view(b) and b.pairs never change after construction; (2) every cached value is a function of view(b) (functional "
-    "postconditions: sequence, __stems_entries, fcfs, dot_bracket, elements), so a slot filled at any time holds what a fresh "
-    "copy would compute; by induction on the length of the call sequence every answer equals the answer of a fresh copy. "
+    "L-HIST (machine-checked composition, lean/History.lean, target lean:History, one obligation per theorem, run by both tiers "
+    "with plain `lean`, no Mathlib): abstract system Sys = (states, objects, view : state -> object -> optional view, Step op r s "
+    "v s'); hypothesis (i) Frame: a step keeps the view of every object existing at its start; hypothesis (ii) Post P: the "
+    "answer of r.op() satisfies P op (view of r) - Functional ans: it equals ans op (view of r); Run = finite histories, any "
+    "receivers (also objects created earlier in the history), any interleaving, non-deterministic steps. Theorems: "
+    "view_preserved (a view never changes along a history), history_relational (cut the history anywhere, e.g. after the "
+    "construction of o: o's view at the end is its view at the cut and every later call on o satisfies P over THAT view - no "
+    "answer is stale), L_hist (functional: every later call (op, o, v) has v == ans op w, w = the view after construction, and "
+    "any execution of op on ANY object with view w in ANY state - the first call on a fresh equal object - returns the same v), "
+    "repeated_access_same_answer (cached_property: same value on every access), hview_frame / heap_history (heaps with fields: "
+    "'every field of every allocated reference unchanged' - the engine's frame.* obligations - plus 'objects held by an existing "
+    "object exist' - requires ENTRIES_ALLOCATED - give (i) for view = own data + data of the held objects in order), "
+    "frame_is_needed (a query that returns its view but flips it satisfies (ii), violates (i), and answers differently the "
+    "second time: the statement is not vacuous and (i) cannot be dropped), hypotheses_can_be_met. "
+    "SECOND PROOF BY SMT (contracts/history_c.py, targets lemma:hist_*; deterministic special case of the Lean statement): a "
+    "recorded history of n steps - allocation frontier AL[t], view codes VV[t][o], operation H[t], receiver RC[t], answer A[t], "
+    "all lemma parameters, the answer function hans uninterpreted - with frame_steps (i) and post_steps (ii); hist_view_stable "
+    "(induction on k - j: an object existing at time j exists at time k >= j with the same view), hist_answers (A[k] == "
+    "hans(H[k], view of the receiver at any earlier time j at which it existed)), hist_as_fresh_copy (equal to the answer of "
+    "the same operation on any object with that view in any other history), hist_cached (same operation, same object: same "
+    "answer). Self-test of both versions (run once, not registered): without the frame hypothesis, for an object not yet "
+    "existing at time j, and with `False` as conclusion the SMT lemmas are refuted by counter-models (so the hypotheses are "
+    "satisfiable); in Lean a dropped Frame hypothesis, a `sorry` and a strengthened conclusion are each reported as failed "
+    "obligations of lean:History. "
+    "WHERE (i)/(ii) COME FROM, method by method [method | (i) frame | (ii) postcondition over the view | functional?]: "
+    "pairs (attribute, no call) | field BpSeq.pairs is framed by every frame.BpSeq.pairs obligation | BpSeq.__post_init__ "
+    "ensures.0 pairs-dict-is-the-pairing: pairs_of(self.pairs, self.entries) | yes (dict determined key by key). "
+    "sequence | bpseq_sequence modifies = [], body without store and without calls: no frame obligation arises | ensures.0 "
+    "seq_of(self.entries, result) | yes. "
+    "__str__ | NO contract; syntactically one expression of reads | none | - : not covered, bounded only. "
+    "fcfs | C01 target BpSeq.fcfs, modifies = []; the body writes local lists only, callees __stems_entries / "
+    "__make_dot_bracket / DotBracket.from_string@painted have modifies = [] (leaf obligations DotBracket.from_string#frame."
+    "DotBracket.*, DotBracket.__post_init__ modifies pairs@self of the fresh object) | ensures 0-6 (length, sequence, lossless, "
+    "painted with the levels FC on the stems R) | relational in the ghost R; functional only with uniqueness of the stem list "
+    "(not machine-checked; FC is unique given R: lean/Definitional.lean); precondition levels30(self). "
+    "dot_bracket | C13 contract (common_milp_c.dot_bracket): modifies LpSolver.msg, LpVariable.varValue and LpProblem fields "
+    "only - no field of BpSeq / Entry / DotBracket; here the ASSUMED contract bpseq_dot_bracket with modifies = [] | SOME proper "
+    "level assignment (relational); same object on every access via ghost slot dot_bracket_ (assumed) | NO: which optimal "
+    "assignment the solver returns is not determined by any contract - functional only over the view that includes the slot. "
+    "all_dot_brackets | C16 target, modifies = [] | every-member-lossless, every-proper-greedy-stable-assignment-is-a-member, "
+    "ordered-by-structure-text | NO (membership clauses do not determine the list): relational. "
+    "elements | BpSeq.elements@prefix modifies = [] PROVED up to `graph = defaultdict(set)`; the tail is NOT verified | stems "
+    "component only (assumed for the returned tuple) | NO: bounded only as a member of histories. "
+    "without_pseudoknots | target BpSeq.without_pseudoknots modifies = [], body without store; callees BpSeq.from_dotbracket "
+    "(frame.Entry.index_/sequence/pair, frame.BpSeq.entries/pairs, loop0.inv1[only-fresh-entries-written]), DotBracket."
+    "without_pseudoknots (frame.DotBracket.*), dot_bracket (assumed) | ensures 0-4: fresh, valid, sequence-unchanged, "
+    "exactly-the-round-bracket-pairs, pairs-dict-is-the-pairing: the view of the result is given position by position from the "
+    "receiver's entries and self.dot_bracket_.structure | yes, over the view including the dot_bracket_ slot. "
+    "without_isolated | frame.Entry.index_/sequence/pair, frame.BpSeq.entries/pairs, loop1.inv0[only-fresh-entries-written]; "
+    "requires ENTRIES_ALLOCATED | ensures 0-6: S-are-the-stems, self-when-nothing-isolated, self-or-fresh, valid, sequence-"
+    "unchanged, exactly-the-pairs-of-stems-of-length>=2, pairs-dict-is-the-pairing | functional only with uniqueness of the "
+    "maximal runs S (not machine-checked); `returns self`: the observed answer is then the receiver's own unchanged view. "
     "The cached_property slots themselves are modelled as ghost fields (dot_bracket_, stems_) that each access returns. "
-    "Bounded only: the history quantifier itself (random call sequences against fresh copies), fcfs/all_dot_brackets/elements "
-    "as members of the history, and `returns self` aliasing effects across calls."
+    "Bounded only: the history quantifier on the REAL objects (random call sequences against fresh copies) - it covers what the "
+    "reading above leaves open: __str__, fcfs / dot_bracket / all_dot_brackets / elements as members of the history compared "
+    "with a FRESH copy (solver determinism, uniqueness of the stem list), and the real cached_property slots."
 )
+
+_LEAN_FILE = "/verif/lean/History.lean"
+_LEAN_THEOREMS = ["view_preserved", "run_append", "answers_satisfy_post_of_initial_view", "history_relational",
+                  "history_functional", "answer_as_first_call_on_fresh_equal_object", "repeated_access_same_answer", "L_hist",
+                  "hview_frame", "heapSys_frame", "heap_history", "frame_is_needed", "hypotheses_can_be_met"]
+
+
+def lean_file_records(path, namespace, theorems, tier, run_in_quick=True, timeout_s=900):
+    """check one Lean file offline with plain `lean` (LEAN_PATH = the compiled Mathlib and its packages when present; no lake,
+    no network) and return the record list for report.py: target lean:<namespace>, one obligation per listed theorem.
+    Accepted iff lean exits 0, prints no error and no `sorry`, and every listed theorem has a `#print axioms` line naming the
+    standard axioms only.  A Lean that cannot be started / cannot load its imports gives NOT-ESTABLISHED, never a violation.
+    An accepted result is cached by the file's SHA-256 under /verif/.cache/lean; with run_in_quick=False the quick tier only
+    reads that cache (for files whose imports make the check slow).  Usable by other property modules as well."""
+    import glob, hashlib, json, os, re, shutil, subprocess, time
+    target = f"lean:{namespace}"
+    backend = "lean-4.33.0"
+    std = {"propext", "Classical.choice", "Quot.sound"}
+    cache_dir = "/verif/.cache/lean"
+    lake = "/opt/veriftools/mathlib4/.lake"
+    ne = lambda why: [{"target": target, "module": "lean", "status": "not-established", "obligations": [], "kind": "lean", "reason": why}]
+    try:
+        text = open(path).read()
+    except OSError as e:
+        return ne(f"checker error: {path} cannot be read ({e})")
+    digest = hashlib.sha256(text.encode()).hexdigest()
+    cache = os.path.join(cache_dir, digest + ".json")
+
+    def record(per, ms, bk):
+        obls = [{"name": f"{target}#{th}", "kind": "lemma", "result": "unsat" if ok else "sat", "backend": bk,
+                 "ms": ms // max(1, len(per)), "model": None, "reason": why, "line": None} for th, (ok, why) in per.items()]
+        return [{"target": target, "module": "lean", "status": "proved" if all(ok for ok, _ in per.values()) else "failed",
+                 "obligations": obls, "kind": "lean", "reason": "", "source_hash": digest[:16]}]
+
+    def cached():
+        try:
+            c = json.load(open(cache))
+            if c.get("sha256") == digest and c.get("state") == "accepted" and sorted(c.get("theorems", [])) == sorted(theorems):
+                return record({th: (True, "") for th in theorems}, c.get("ms", 0), backend + f" (cached result for file hash {digest[:16]})")
+        except (OSError, ValueError):
+            pass
+        return None
+
+    if tier != "thorough" and not run_in_quick:
+        return cached() or []
+    t0 = time.time()
+    exe = shutil.which("lean") or "/opt/veriftools/lean/bin/lean"
+    src = text.splitlines()
+    import_line = max([k + 1 for k, l in enumerate(src) if l.startswith("import ")] or [0])
+    dirs = [d for d in [lake + "/build/lib/lean"] + sorted(glob.glob(lake + "/packages/*/.lake/build/lib/lean")) if os.path.isdir(d)]
+    if not os.path.exists(exe) or (import_line and not dirs):
+        return cached() or ne(f"checker error, no verdict: lean binary or compiled Mathlib not found ({exe}, {lake})")
+    env = {k: v for k, v in os.environ.items() if not k.lower().endswith("_proxy")}
+    if dirs:
+        env["LEAN_PATH"] = ":".join(dirs)
+    try:
+        p = subprocess.run([exe, path], capture_output=True, text=True, timeout=timeout_s, env=env, cwd=os.path.dirname(path))
+    except (OSError, subprocess.TimeoutExpired) as e:
+        return cached() or ne(f"checker error, no verdict: lean could not be run: {type(e).__name__}: {e}"[:300])
+    ms = int((time.time() - t0) * 1000)
+    out = p.stdout + "\n" + p.stderr
+    errors = [(int(m.group(1)), m.group(2)) for m in re.finditer(r"^[^\n:]*:(\d+):\d+: error[^:\n]*: ([^\n]*)", out, re.M)]
+    if any(ln <= import_line for ln, _ in errors) or (p.returncode != 0 and not errors):
+        return cached() or ne(("checker error, no verdict: lean could not load its imports or crashed: "
+                               + (errors[0][1] if errors else out.strip()[:200]))[:300])
+    starts = [(k + 1, re.match(r"(?:theorem|def|lemma|noncomputable def)\s+(\S+)", l).group(1)) for k, l in enumerate(src)
+              if re.match(r"(?:theorem|def|lemma|noncomputable def)\s+\S+", l)]
+    span = {n: (ln, (starts[i + 1][0] - 1 if i + 1 < len(starts) else len(src))) for i, (ln, n) in enumerate(starts)}
+    ns = re.escape(namespace)
+    axioms = {m.group(1): {x.strip() for x in m.group(2).split(",") if x.strip()}
+              for m in re.finditer(r"'" + ns + r"\.(\w+)' depends on axioms: \[([^\]]*)\]", out)}
+    axioms.update({m.group(1): set() for m in re.finditer(r"'" + ns + r"\.(\w+)' does not depend on any axioms", out)})
+    per = {}
+    for th in theorems:
+        lo, hi = span.get(th, (0, -1))
+        errs = [msg for ln, msg in errors if lo <= ln <= hi]
+        if th not in span:
+            per[th] = (False, "theorem not found in the file")
+        elif errs:
+            per[th] = (False, "lean error: " + errs[0][:200])
+        elif th not in axioms:
+            per[th] = (False, "no `#print axioms` output for this theorem")
+        elif axioms[th] - std:
+            per[th] = (False, "depends on non-standard axioms: " + ", ".join(sorted(axioms[th] - std)))
+        else:
+            per[th] = (True, "")
+    clean = p.returncode == 0 and not errors and "sorry" not in out
+    if not clean and all(ok for ok, _ in per.values()):  # an error outside the listed theorems, or a `sorry`: nothing is accepted
+        why = errors[0][1] if errors else ("`sorry` in the output" if "sorry" in out else f"exit code {p.returncode}")
+        per = {th: (False, "the file as a whole is not accepted: " + why[:200]) for th in per}
+    if clean and all(ok for ok, _ in per.values()):
+        try:
+            os.makedirs(cache_dir, exist_ok=True)
+            with open(cache, "w") as f:
+                json.dump({"sha256": digest, "state": "accepted", "theorems": theorems, "ms": ms, "backend": backend}, f, indent=1)
+        except OSError:
+            pass
+    return record(per, ms, backend)
+
+
+def deductive_extra(tier, seed):
+    """lemma L-hist (lean/History.lean): core Lean only, about one second - run by both tiers"""
+    return lean_file_records(_LEAN_FILE, "History", _LEAN_THEOREMS, tier, run_in_quick=True)
 
 
 def has_isolated(p):
